@@ -1173,6 +1173,8 @@ class Bits:
         dtype_list = []
         for f_item in fmt:
             if isinstance(f_item, numbers.Integral):
+                if f_item < 0:
+                    raise ValueError("Cannot read negative amount.")
                 dtype_list.append(Dtype('bits', f_item))
             elif isinstance(f_item, Dtype):
                 dtype_list.append(f_item)
